@@ -441,3 +441,83 @@ CHECKS["C15"] = dict(
     bounds=dict(quick="13 + 7 types; <= 120 values per type; depth 5", thorough="<= 400 values per type; depth 6; ASan build"),
     floor=dict(transitions=dict(quick=3000, thorough=10000), evaluations=dict(quick=20000, thorough=40000)),
 )
+
+
+# ----------------------------------------------------------------------------------------------- table-lab (C07, C08, C05x)
+NTL = 8
+
+
+def tl_bins(flavor):
+    out = []
+    for i in range(NTL):
+        name = "tablelab_%s_%02d" % (flavor, i)
+        if name not in BINS:
+            B(name, ["checks/tablelab.cpp", "harness/support.cpp"], flavor, defs=["SHARD=%d" % i, "NSHARDS=%d" % NTL],
+              ldflags=WRAP, gen=True)
+        out.append(BINS[name])
+    return out
+
+
+for _fl in ("gcc", "asan"):
+    tl_bins(_fl)
+
+
+def tl_jobs(prop):
+    def jobs(tier):
+        js = [job(b, "--prop", prop, "--tier", tier) for b in tl_bins("gcc")]
+        if tier == "thorough":
+            js += [job(b, "--prop", prop, "--tier", tier) for b in tl_bins("asan")]
+        return js
+    return jobs
+
+
+TL_NOTE = ("version graph from gen/tables.py: pool of 3 entries (id 0 string|W1<string>, id 1 vector<int32>|array<int32,2>, "
+           "id 128 uint64|W1<uint64>), versions = ordered lists of (entry, active T | active twin | deleted), explored "
+           "breadth-first over the evolution steps add / remove / mark deleted / swap adjacent / retype to the fungible twin "
+           "to fixpoint: 226 versions (225 declarable C++ types + the empty table), 2187 edges")
+
+CHECKS["C07"] = dict(
+    engine="table-lab", level="model_checking", jobs=tl_jobs("C07"),
+    level_text="explicit-state search over table-definition histories enumerates every reachable version; then EVERY ordered "
+               "pair (writer version, reader version) x every assignment of {empty, value1, value2} to the writer's active "
+               "entries is executed on the real code (225 x 225 x up to 27) through four readers (Pedantic, Buffer, Stream, "
+               "BoundedReader) plus a pre-filled destination, and a subset of 21 versions additionally as struct member, "
+               "vector element and entry of an outer table; a sentinel value follows on the same stream. Reference model: "
+               "read succeeds, entries active on both sides carry the value across (compared through independent bridges), "
+               "every other reader entry is empty, the sentinel is read next, the reader ends exactly at the end",
+    level_note=TL_NOTE + "; writer bytes are additionally compared with the reference encoder; ids on the POS/U8 class boundary",
+    technique="explicit-state model checking: BFS over schema-evolution histories (model) + every model pair replayed against the implementation",
+    rule="states = table versions, transitions = evolution edges, traces_validated_against_impl = (writer, reader, assignment, "
+         "context, reader rig) executions compared with the evolution model",
+    assumptions=R_ASSUME,
+    bounds=dict(quick="pool 3 (226 versions), all pairs, 4 readers, contexts on every 11th version", thorough="same + ASan/UBSan build"),
+    floor=dict(traces_validated_against_impl=dict(quick=2000000, thorough=4000000)),
+)
+
+CHECKS["C08"] = dict(
+    engine="table-lab", level="exploration", jobs=tl_jobs("C08"),
+    level_text="encodings written by every 7th version (and all full-pool versions) with two value assignments are mutated "
+               "(every entry duplicated / dropped / swapped with its neighbour, every declared size shrunk by 1..12 and grown "
+               "by 1..3 with and without the padding bytes, the hash set to 17 values incl. high-bit flips, every integer "
+               "field re-encoded in every class, every byte x every value for encodings <= 40 bytes, every truncation, "
+               "trailing bytes) and read by the writer's own and every 5th other version through three readers; "
+               "accept/reject, decoded entries, exact position after the table and - for single local defects, duplicates and "
+               "shrunk sizes - the error category must equal an independent reference decoder (InvalidTableHash, "
+               "DuplicateTableEntry for known active ids only, ReadLimitReached for a too-small frame, success with exact "
+               "surplus skipping for a larger frame, any order accepted, an error inside an entry fails the whole read)",
+    level_note=TL_NOTE,
+    technique="bounded exhaustive enumeration of mutated table encodings against a reference decoder",
+    rule="one case per (writer version, reader version, assignment, mutation, reader rig); distinct by construction",
+    assumptions=R_ASSUME,
+    bounds=dict(quick="~40 writer versions x ~8 reader versions per shard x 2 assignments", thorough="every 3rd writer version, 3 assignments, byte substitution <= 64 bytes; + ASan build"),
+    floor=dict(evaluations=dict(quick=50000000, thorough=100000000)),
+)
+ENGINES.append(dict(name="table-lab", path="checks/tablelab.cpp, gen/tables.py",
+                    serves_properties=["C05", "C07", "C08"],
+                    kind_free_text="generated table-version graph (BFS over evolution steps), all version pairs executed on the real codec"))
+
+# C05 also runs the cross-version truncation sweep of the table-lab
+_c05_codec = CHECKS["C05"]["jobs"]
+CHECKS["C05"]["jobs"] = lambda tier: _c05_codec(tier) + tl_jobs("C05")(tier)
+CHECKS["C05"]["level_text"] += ("; plus, for every ordered pair (writer version, reader version) of the 225-version table graph with all "
+                                "writer entries set, every cut - i.e. also inside entries the reader skips or has deleted and inside padding")
